@@ -21,7 +21,11 @@ def main(tier):
     run = Run("C07", tier, level="proof")
     run.rule = ("case = materialised free-list shape x stamp piece; obligations = each clause of the FIFO model for that case; non-trivial = distinct shapes")
     profiles = ["dev", "rel"]
-    data = e2props.load(run, profiles, ["free_node", "new_node", "clear"])
+    prog0 = facts.load("dev", None)
+    idx0 = rules.Index(prog0)
+    ALLOC = rules.alloc_gates(prog0, idx0)
+    own_alloc = rules.APPEND_VALUE in ALLOC       # append_value allocates through a path of its own: its allocation is decided like new_node's
+    data = e2props.load(run, profiles, ["free_node", "new_node", "clear"] + (["append_alloc"] if own_alloc else []))
     for (prof, entry), recs in sorted(data.items()):
         e2props.undecided(run, recs, prof)
         kinds = set()
@@ -64,41 +68,13 @@ def main(tier):
                         ok = post["last"] == x and qn.get(k) == x and post["first"] in ("unk", pre["first"]) and set(qn) == {x, k}
                         run.ob(entry, "free_node/%s: non-empty list -> old tail links to x, last = x, head unchanged" % prof, ok,
                                key="free_node|enqueue does not append at the tail", detail=d, nontrivial=nt, sample=True)
-            elif entry == "new_node":
-                k = rec["returned"]
-                run.ob(entry, "new_node/%s: returns an id of a slot of this arena" % prof, k is not None, key="new_node|returned id addresses no slot", detail=d)
-                if k is None:
-                    continue
-                run.ob(entry, "new_node/%s: returned slot is live afterwards with the payload stored and no links" % prof,
-                       rec["returned_data"] == "Data" and rec["returned_links"] == [None] * 5 and rec["returned_stamp_range"][0] >= 0,
-                       key="new_node|returned slot not a clean live node", detail=d, nontrivial=nt)
-                run.ob(entry, "new_node/%s: the id handed out carries the slot's current generation (a fresh id is not 'removed')" % prof, rec.get("returned_id_is_current") is True,
-                       key="new_node|returned id does not carry the slot's current stamp", detail=d, nontrivial=nt)
-                run.ob(entry, "new_node/%s: no other node is written" % prof, not rec["other_writes"] and all(w[0] == k for w in rec["data_writes"]),
-                       key="new_node|writes to another node", detail=d)
-                if pre["first"] is None:
-                    kinds.add("push")
-                    ok = rec["events"] == ["push"] and rec["returned_fresh"] and rec["len"][1].endswith("+1") and post["first"] in (None,) and post["last"] in (None, "unk") \
-                        and rec["returned_stamp_range"] == [0, 0]
-                    run.ob(entry, "new_node/%s: empty free list -> push one slot (count + 1), stamp 0" % prof, ok, key="new_node|empty free list does not push exactly one fresh slot", detail=d, nontrivial=nt, sample=True)
-                else:
-                    kinds.add("pop")
-                    h = pre["first"]
-                    nxt = pn.get(h, "unk")
-                    ok = k == h and not rec["returned_fresh"] and rec.get("returned_was_member") and rec["events"] == [] and rec["len"][0] == rec["len"][1]
-                    run.ob(entry, "new_node/%s: non-empty free list -> the head is recycled, count unchanged" % prof, ok,
-                           key="new_node|does not recycle the head of the free list without growing", detail=d, nontrivial=nt, sample=True)
-                    ok2 = post["first"] == nxt and ((nxt is None and post["last"] is None) or (nxt is not None and post["last"] in ("unk", pre["last"])))
-                    run.ob(entry, "new_node/%s: first := head.next; last := None iff the list became empty" % prof, ok2,
-                           key="new_node|free-list ends wrong after popping the head", detail=d, nontrivial=nt)
-                    plo, phi = rec.get("returned_prev_stamp_range") or (0, 0)
-                    run.ob(entry, "new_node/%s: recycled slot was removed (stamp < 0) and reuseable" % prof, phi < 0 and plo > I16_MIN,
-                           key="new_node|recycled slot was not a removed, reuseable slot", detail=d)
+            elif entry in ("new_node", "append_alloc"):
+                kinds |= e2props.alloc_obligations(run, entry, prof, rec, d, nt)
             elif entry == "clear":
                 kinds.add("clear")
                 ok = post["first"] is None and post["last"] is None and rec["len"][1] == "0" and rec["events"] == ["clear"]
                 run.ob(entry, "clear/%s: first = last = None, no slots" % prof, ok, key="clear|does not reset the free list and the slot vector", detail=d, nontrivial=nt, sample=True)
-        want = {"free_node": {"empty", "append", "exhausted"}, "new_node": {"push", "pop"}, "clear": {"clear"}}[entry]
+        want = {"free_node": {"empty", "append", "exhausted"}, "new_node": {"push", "pop"}, "append_alloc": {"push", "pop"}, "clear": {"clear"}}[entry]
         run.ob("coverage", "%s/%s: cases %s explored" % (entry, prof, sorted(want)), want <= kinds, key="coverage|%s: case(s) %s never reached" % (entry, sorted(want - kinds)))
     # E1: length-changing calls on the node vector
     prog = facts.load("dev", None)
@@ -111,10 +87,10 @@ def main(tier):
                 if targs and targs[0].startswith("crate::node::Node<"):
                     found.append((k, n.rsplit("::", 1)[-1]))
     # the slot vector grows only below new_node (push) and is emptied only below clear: the functions E2 analyses (helpers reachable only through them are covered)
-    NEW, CLEAR = "crate::arena::Arena<T>::new_node", "crate::arena::Arena<T>::clear"
-    bad = [(k, m) for (k, m) in found if not ((m == "push" and idx.gated(k, {NEW})) or (m == "clear" and idx.gated(k, {CLEAR})))]
+    CLEAR = "crate::arena::Arena<T>::clear"
+    bad = [(k, m) for (k, m) in found if not ((m == "push" and idx.gated(k, ALLOC)) or (m == "clear" and idx.gated(k, {CLEAR})))]
     kinds_found = {m for _, m in found}
-    run.ob("vec-length", "length-changing calls on Vec<Node<T>> are a push below new_node and a clear below clear(): %s" % sorted(found), not bad and kinds_found == {"push", "clear"},
+    run.ob("vec-length", "length-changing calls on Vec<Node<T>> are a push below %s and a clear below clear(): %s" % ("/".join(sorted(g.rsplit("::", 1)[-1] for g in ALLOC)), sorted(found)), not bad and kinds_found == {"push", "clear"},
            key="vec-length|unexpected length-changing call on the slot vector: %s" % (sorted(bad) or sorted(kinds_found)), detail=found, nontrivial="veclen", sample=True)
     run.extra["written_argument"] = ("J6 (the NextFree chain from first is a simple path ending at last covering exactly the removed, reuseable slots) is preserved because the only "
                                      "list updates are 'append a non-member (x was live) at the tail' and 'remove the head'; each removal calls free_node exactly once (C04) and each "
